@@ -113,6 +113,29 @@ def branch_of(fn, node: ast.AST, text: str):
     return None
 
 
+def module_consts(module) -> dict:
+    """{name: value} for module-level names bound once to a constant expression over literals and earlier such names (folded from
+    the syntax tree; nothing of the repository is imported)."""
+    env, count = {}, {}
+    for st in module.tree.body:
+        tg, val = (st.targets[0], st.value) if isinstance(st, ast.Assign) and len(st.targets) == 1 else \
+            ((st.target, st.value) if isinstance(st, ast.AnnAssign) else (None, None))
+        if isinstance(tg, ast.Name):
+            count[tg.id] = count.get(tg.id, 0) + 1
+    for st in module.tree.body:
+        tg, val = (st.targets[0], st.value) if isinstance(st, ast.Assign) and len(st.targets) == 1 else \
+            ((st.target, st.value) if isinstance(st, ast.AnnAssign) else (None, None))
+        if not isinstance(tg, ast.Name) or val is None or count.get(tg.id) != 1:
+            continue
+        if any(isinstance(x, (ast.Call, ast.Attribute, ast.Subscript, ast.Lambda, ast.Dict, ast.List, ast.Set)) for x in ast.walk(val)):
+            continue
+        try:
+            env[tg.id] = eval(compile(ast.Expression(val), "<const>", "eval"), {"__builtins__": {}}, dict(env))
+        except Exception:
+            pass
+    return env
+
+
 def stmt_of(node: ast.AST) -> ast.AST:
     p = node
     while p is not None and not isinstance(p, ast.stmt):
